@@ -125,6 +125,20 @@ class _PackInterp(BufInterp):
         if name == "os.path.join":
             self.joins.append(tuple(args))
             return Sym("path", *args)
+        if name == "os.path.dirname":
+            p = args[0]
+            if isinstance(p, Sym) and p.op == "path":
+                head = p.args[0] if len(p.args) == 2 else Sym("path", *p.args[:-1])
+                return "" if head is None else head
+            if isinstance(p, str):
+                import os.path as _osp
+                return _osp.dirname(p)
+        if name in ("os.makedirs", "os.mkdir"):
+            # (the directory of a file in the working directory is the empty string, which the os refuses)
+            if args[0] == "" or args[0] is None:
+                raise Raised(Sym("exc", "FileNotFoundError" if args[0] == "" else "TypeError"), node)
+            self.__dict__.setdefault("dirs_made", []).append(args[0])
+            return None
         if short in ("isMaskedArray", "isMA", "isarray") and "ma" in name:
             return isinstance(args[0], Sym) and args[0].op == "mag" and args[0].args[0] in ("masked", "masked-empty")
         if short == "is_masked" and "ma" in name:
@@ -449,9 +463,13 @@ def r25s_pack(repo, sink):
         FinamInterp(repo).store_attr(o2, "memory_location", None, None)
         _set_counter(repo, o2, 0)
         it2 = _PackInterp(repo, od, "plain")
-        it2.run(pk, [Sym("payload")], self_obj=o2)
-        sink.check(len(it2.joins) == 1 and it2.joins[0][0] in ("", None), "R25", f"filename-no-location:{pk.qualname}", pk,
-                   ok="without a location the file goes to the working directory", bad=f"without a location: {it2.joins!r}")
+        try:
+            it2.run(pk, [Sym("payload")], self_obj=o2)
+            sink.check(len(it2.joins) == 1 and it2.joins[0][0] in ("", None), "R25", f"filename-no-location:{pk.qualname}", pk,
+                       ok="without a location the file goes to the working directory", bad=f"without a location: {it2.joins!r}")
+        except Raised as r:
+            sink.bad("R25", f"filename-no-location:{pk.qualname}", pk, f"a slot with a memory limit but no location: the first publication crossing the limit raises {r.name} "
+                     "(the run without a limit delivers all data)")
     _wiring(repo, sink)
 
 
